@@ -3,6 +3,7 @@ import os
 import re
 
 from ..absint2 import Analyzer, StructInvariant
+from ..linarith import Lin
 from ..effects import Effects
 from ..model import strip_generics
 from ..termination import analyse_loops
@@ -46,6 +47,12 @@ DECODER_INVARIANT = StructInvariant(
     "offset <= len(data)", fields=("offset", "data"))
 
 
+OUTPACKET_INVARIANT = StructInvariant(
+    "dns_parser::DnsOutPacket",
+    lambda i, l: [(Lin.const(12).sub(l("data")) if l("data") is not None else None)],
+    "len(data) >= 12", fields=("data",))
+
+
 def check_invariant_support(ctx, P, rule, eff):
     """the declared invariant `DnsIncoming.offset <= len(DnsIncoming.data)` is only meaningful while nothing but the
     constructor writes `data`"""
@@ -54,9 +61,71 @@ def check_invariant_support(ctx, P, rule, eff):
            "field-effect scan: writers of DnsIncoming.data = %s (the constructor builds it in an aggregate)" % (sorted(set(writers)) or "none"))
 
 
-def run_engine(P, roots, scope=None, invariants=(), inline_depth=3, max_inline_blocks=60, param_ranges=None):
+_ADDR = {}
+
+
+def addr_taken(P):
+    """crate functions used as values (function items passed around): their callers are not all visible as calls"""
+    k = id(P)
+    if k not in _ADDR:
+        seen = set()
+
+        def scan(o):
+            if isinstance(o, dict):
+                if o.get("k") == "const" and "fn" in o:
+                    n = o["fn"]
+                    seen.add(n[len("mdns_sd::"):] if n.startswith("mdns_sd::") else n)
+                for v in o.values():
+                    scan(v)
+            elif isinstance(o, list):
+                for v in o:
+                    scan(v)
+        for f in P.fns.values():
+            for b in range(f.n):
+                for s in f.stmts(b):
+                    scan(s)
+                for a in f.term(b).get("args") or ():
+                    scan(a)
+        _ADDR[k] = seen
+    return _ADDR[k]
+
+
+def run_engine(P, roots, scope=None, invariants=(), inline_depth=3, max_inline_blocks=60, param_ranges=None, monotone=(),
+               field_ranges=None, propagate_params=False):
+    """one analysis of the scope.  With propagate_params the run is repeated with the integer-parameter ranges
+    observed at the call sites of the previous run (only for functions that cannot be called from outside the crate
+    nor through a closure / function pointer), until the assumed ranges are confirmed by the run that used them."""
+    if propagate_params:
+        assumed = dict(param_ranges or {})
+        for _round in range(4):
+            A, eff = run_engine(P, roots, scope, invariants, inline_depth, max_inline_blocks, assumed, monotone, field_ranges, False)
+            nxt = {}
+            for (name, i), (lo, hi) in A.observed.items():
+                f = P.fns.get(name)
+                if f is None or f.exported or f.j.get("closure") or f.j.get("impl_trait") or name in addr_taken(P) or name in roots:
+                    continue
+                nxt[(name, i)] = (lo, hi)
+            # confirmed when every assumed range contains what this run observed
+            ok = all(k in nxt and nxt[k][0] >= v[0] and nxt[k][1] <= v[1] for k, v in assumed.items())
+            if ok and _round > 0:
+                A.param_rounds = _round + 1
+                A.assumed_params = assumed
+                return A, eff
+            if _round == 0:
+                assumed = nxt
+            else:
+                # weaken to the hull; drop what keeps moving
+                assumed = {k: (min(v[0], nxt[k][0]), max(v[1], nxt[k][1])) for k, v in assumed.items() if k in nxt}
+        A, eff = run_engine(P, roots, scope, invariants, inline_depth, max_inline_blocks, param_ranges, monotone, field_ranges, False)
+        A.param_rounds = -1
+        A.assumed_params = dict(param_ranges or {})
+        return A, eff
     eff = Effects(P)
     A = Analyzer(P, eff, invariants=list(invariants), inline_depth=inline_depth, max_inline_blocks=max_inline_blocks)
+    A.monotone = list(monotone)
+    A.field_ranges = dict(field_ranges or {})
+    A.assumed_params = dict(param_ranges or {})
+    A.param_rounds = 0
     A.scope = set(scope) if scope is not None else None
     if param_ranges:
         A.param_ranges.update(param_ranges)
@@ -70,7 +139,32 @@ def run_engine(P, roots, scope=None, invariants=(), inline_depth=3, max_inline_b
             if not missing:
                 break
             plain = [n for n in missing if not P.fns[n].j.get("closure")]
-            A.run(plain[:1] if plain else missing[:1])
+            # callers before callees: a function is analysed on its own only when no caller that could still
+            # inline it (with its actual arguments) is itself waiting
+            mset = set(missing)
+            rcg = P.rev_callgraph()
+            top = [n for n in plain if not any(c in mset and c != n for c in rcg.get(n, ()))]
+            if not top and plain:
+                # only cycles are left: take a function of a source component (everything that reaches it is
+                # reached by it), so that the others are still analysed from their callers
+                cg = P.callgraph()
+
+                def reach(n):
+                    seen, stack = set(), [n]
+                    while stack:
+                        x = stack.pop()
+                        for y in cg.get(x, ()):
+                            if y in mset and y not in seen:
+                                seen.add(y)
+                                stack.append(y)
+                    return seen
+                rs = {n: reach(n) for n in plain}
+                for n in plain:
+                    if all(n in rs.get(m, ()) and m in rs[n] for m in plain if m != n and n in rs.get(m, ())):
+                        top = [n]
+                        break
+            pick = top[:1] or plain[:1] or missing[:1]
+            A.run(pick)
         # a closure value with more than one use is also analysed without context
         for n in sorted(A.closure_multi - A.analyzed_standalone):
             if n in scope:
